@@ -37,7 +37,10 @@ pub struct Acc {
 
 impl Acc {
     pub fn violation(&mut self, v: Violation) {
-        if self.violations.len() < 20 {
+        // at most a handful PER CHECK: a systematic break of one check (e.g. the exhaustive
+        // is_single_line_comment table) must not crowd out the failing inputs of the others (seeded C03-m9)
+        let same = self.violations.iter().filter(|x| x.kind == v.kind && x.check == v.check).count();
+        if same < 5 {
             self.violations.push(v);
         }
     }
@@ -2218,6 +2221,9 @@ pub const FIXED_SOURCES: &[&str] = &[
     "return function(...) local a, b = ... return a end",
     "\tlocal a\t=\t1\t\n\t\treturn\ta",
     "local a = 1 --[[x]] --[[y]] -- z\n -- w\nreturn a",
+    // long comments of level >= 2 followed by code on the SAME line (seeded C03-m9: is_single_line_comment)
+    "local a = 1 --[==[ note ]==] local b = 2\nreturn a --[===[x]===] + b --[==[\nmulti ]==] , 3 --[====[]====]\t;",
+    "--[==[ head ]==] local x = --[=[ one ]=] 1 --[==[ two ]==] --[===[ three ]===] return x",
     "return {\n\t-- c1\n\ta = 1, -- c2\n\t--[[ c3 ]] b = 2 ; -- c4\n}\n-- end",
     "return t[ u[1] ], t[ [[s]] ], 1 .. 2, 1 .. .2",
     "@native function f() end",
